@@ -6,6 +6,7 @@
   (any length, any status codes, any validation oracle, any order).
 -/
 import Lumina.Proofs.HeaderExClient
+import Lumina.Proofs.ComposeHeaderExValidate
 import Lumina.Gen.C28
 import Lumina.Spec.C28
 
@@ -256,5 +257,91 @@ example : HeightsFit [⟨1, some h5⟩, ⟨1, some h6⟩] := by
   intro r hr h hh
   simp only [List.mem_cons, List.mem_nil_iff, or_false] at hr
   rcases hr with rfl | rfl <;> simp at hh <;> subst hh <;> simp [h5, h6, U64_MAX]
+
+/-! ### C28 × C01 (strengthening S7): the validation oracle instantiated with the model of `validate`
+
+  `accept_sound` speaks about "validated" entries, where validated is the oracle bit
+  `Resp.decoded`.  With the bit computed from the C01 model (`respOf`: the body decoded to `eh` and
+  `validate eh = Ok`; lemmas in `Proofs/ComposeHeaderExValidate.lean`) every header the client
+  returns — for a height, a hash or a head request alike — is the abstraction of a concrete header
+  that arrived with status OK and satisfies every acceptance condition of `ExtendedHeader::validate`
+  as characterised by `Props.C01.validate_ok_iff`. -/
+
+open Lumina.Proofs.ComposeHeaderExValidate
+open Lumina.Model.HeaderVerify (ExtHeader Prims Consts validate headerValidateBasic commitValidateBasic
+  valSetValidateBasicE dahValidateBasic)
+
+/-- every accepted header comes from a response with status OK whose body passes `validate` -/
+theorem accepted_headers_pass_validate {S : Type} (P : Prims S) (c : Consts) (A : Abs S) (req : Request)
+    (ws : List (WireResp S)) (hs : List Hdr)
+    (h : decodeAndVerify req (ws.map (respOf P c A)) = .ok hs) :
+    ∀ x ∈ hs, ∃ w ∈ ws, ∃ eh, w.status = 1 ∧ w.body = some eh ∧ A.f eh = x ∧ validate P c eh = .ok := by
+  intro x hx
+  have hacc := accept_sound req _ hs h
+  simp only [acceptable, Bool.and_eq_true, List.all_eq_true] at hacc
+  have hmem := hacc.1.2 x hx
+  rw [validatedOf_eq] at hmem
+  exact validated_from_valid P c A ws x (by simpa using hmem)
+
+/-- **every header the client returns for a height / hash / head request satisfies the C01
+    acceptance conditions**: header, commit and validator set are well formed, the header names
+    exactly this validator set (`validators_hash`) and this DAH (`data_hash`), the commit is for
+    exactly this header (height and block hash), validators holding more than 2/3 of the power
+    signed it (`lightOf = Ok`), and the DAH has an admissible width for the header's app version -/
+theorem accepted_headers_meet_c01_conditions {S : Type} (P : Prims S) (c : Consts) (A : Abs S)
+    (req : Request) (ws : List (WireResp S)) (hs : List Hdr)
+    (h : decodeAndVerify req (ws.map (respOf P c A)) = .ok hs) :
+    ∀ x ∈ hs, ∃ eh, A.f eh = x ∧ eh.header.height = x.height ∧
+      headerValidateBasic c eh.header = none ∧ commitValidateBasic c eh.commit = none ∧
+      valSetValidateBasicE eh.valset = none ∧
+      P.hValset eh.valset.hashed = eh.header.validatorsHash ∧
+      P.hDah (eh.dah.rows ++ eh.dah.cols) = eh.header.dataHash.getD none ∧
+      eh.commit.height = eh.header.height ∧
+      eh.commit.blockId.hash = P.hHeader eh.header.canon ∧
+      Lumina.Props.C01.lightOf P c eh = .ok ∧
+      ∃ maxW, c.maxExtWidth? eh.header.versionApp = some maxW ∧
+        dahValidateBasic c.minExtWidth maxW eh.dah = none := by
+  intro x hx
+  obtain ⟨w, _, eh, _, _, hf, hv⟩ := accepted_headers_pass_validate P c A req ws hs h x hx
+  obtain ⟨h1, h2, h3, h4, h5, h6, h7, h8, h9⟩ := (Lumina.Props.C01.validate_ok_iff P c eh).mp hv
+  exact ⟨eh, hf, by rw [← hf, A.height_eq], h1, h2, h3, h4, h5, h6, h7, h8, h9⟩
+
+/-- for a HEIGHT request the `i`-th returned header is the abstraction of a validated header of
+    height exactly `start + i` -/
+theorem height_request_returns_validated_headers_of_requested_heights {S : Type} (P : Prims S)
+    (c : Consts) (A : Abs S) (start amount : Nat) (hstart : start ≠ 0) (ws : List (WireResp S))
+    (hs : List Hdr)
+    (h : decodeAndVerify { data := .origin start, amount := amount } (ws.map (respOf P c A)) = .ok hs)
+    (i : Nat) (hi : i < hs.length) :
+    ∃ eh, A.f eh = hs[i] ∧ eh.header.height = start + i ∧ validate P c eh = .ok := by
+  obtain ⟨w, _, eh, _, _, hf, hv⟩ :=
+    accepted_headers_pass_validate P c A _ ws hs h hs[i] (List.getElem_mem hi)
+  have hacc := accept_sound _ _ hs h
+  simp only [acceptable, toKind, hstart, ↓reduceIte, Bool.and_eq_true, beq_iff_eq] at hacc
+  have hh : (hs.map (·.height))[i]'(by simpa using hi) = start + i := by
+    have := hacc.2.2
+    simp only [this, List.getElem_range']
+    omega
+  refine ⟨eh, hf, ?_, hv⟩
+  rw [← A.height_eq, hf]
+  simpa using hh
+
+/-! non-vacuity with C01's witness header `wEH` (accepted by `validate`) and a tampered copy -/
+
+def exAbs : Abs Lumina.Props.C01.WS where
+  f := fun eh => { height := eh.header.height, hash := [eh.commit.round], id := eh.commit.sigs.length }
+  height_eq := fun _ => rfl
+
+/-- a head request answered with the witness header: accepted … -/
+example : decodeAndVerify { data := .origin 0, amount := 1 }
+    ([⟨1, some Lumina.Props.C01.wEH⟩].map (respOf Lumina.Props.C01.wP Lumina.Model.HeaderVerify.sourceConsts exAbs))
+      = .ok [exAbs.f Lumina.Props.C01.wEH] := by decide
+
+/-- … the same header with a foreign `validators_hash` does not pass `validate`: refused -/
+example : decodeAndVerify { data := .origin 0, amount := 1 }
+    ([⟨1, some { Lumina.Props.C01.wEH with
+        header := { Lumina.Props.C01.wEH.header with validatorsHash := some [7] } }⟩].map
+      (respOf Lumina.Props.C01.wP Lumina.Model.HeaderVerify.sourceConsts exAbs))
+      = .err .invalidResponse := by decide
 
 end Lumina.Props.C28
